@@ -8,7 +8,10 @@ Continued in C16HeadlineMore.lean (theorems that need modules which import this 
 stated IDNA assumption (`C16_headline_idn_*`), the zone id (`C16_headline_zone_*`), RFC 5952 (`C16_headline_ipv6_is_rfc5952`,
 `_double_colon`, `_groups`), brackets in `str()` (`C16_headline_str_brackets_*`), `build(authority=…)`
 (`C16_headline_build_authority_host`, `C16_headline_validation_fails_for_build_authority`,
-`C16_headline_nfkc_rejects_build_authority`).  The GAPS block at the end of THIS file is the one that is kept up to date.
+`C16_headline_nfkc_rejects_build_authority`).  Continued further in C16HeadlineMore3.lean (headline theorems over
+C16More2.lean: the IPv6 text for every address and embedded IPv4, idempotence for every validated host and the agreement of
+the four routes, `with_host` / `build(encoded=True)` and the NFKC clause, the bracket case of the NFKC screen — GAPS 1, 4,
+5, 6, 8).  The GAPS block at the end of THIS file is the one that is kept up to date.
 
 Property statement (verbatim):
 
@@ -160,15 +163,18 @@ theorem C16_headline_never_injects (o : Oracles) (h r : Str) (he : encodeHost o 
 
 /-- "any authority containing a non-ASCII character whose NFKC form contains '/', '?', '#', '@' or ':' is
     rejected" — at the level of the constructor (NEW here; `C16_nfkc_rejects` is the `_check_netloc` level).
-    `A` is the RFC authority of the cleaned input; `nn` the oracle's NFKC of `A` without "@:#?".
+    `A` is the RFC authority of the cleaned input; `nn` the oracle's NFKC of `A` without "@:#?[]".  Since library fix
+    27f84d3 `_check_netloc` also removes '[' ']' before normalising and rejects an NFKC form containing '[' or ']'
+    (U+FF3B / U+FF3D normalise to them) — the statement below has the seven characters, the property text names five
+    (GAPS 8; the bracket case by itself: `C16_headline_nfkc_rejects_brackets`, C16HeadlineMore3.lean).
     Since fix c2c2803 `build(authority=…)` runs the same screen: `C16_headline_nfkc_rejects_build_authority`
     (C16HeadlineMore.lean). -/
 theorem C16_headline_nfkc_rejects (e : Env) (s nn : Str) :
     let A := (Rfc.appendixB Gen.schemeChars (cleanUrl s)).authority
     isAscii A = false →
-    e.o.nfkc (A.filter (fun c => c ≠ 64 ∧ c ≠ 58 ∧ c ≠ 35 ∧ c ≠ 63)) = some nn →
-    nn ≠ A.filter (fun c => c ≠ 64 ∧ c ≠ 58 ∧ c ≠ 35 ∧ c ≠ 63) →
-    (∃ c ∈ nn, c = 47 ∨ c = 63 ∨ c = 35 ∨ c = 64 ∨ c = 58) →
+    e.o.nfkc (A.filter (fun c => c ≠ 64 ∧ c ≠ 58 ∧ c ≠ 35 ∧ c ≠ 63 ∧ c ≠ 91 ∧ c ≠ 93)) = some nn →
+    nn ≠ A.filter (fun c => c ≠ 64 ∧ c ≠ 58 ∧ c ≠ 35 ∧ c ≠ 63 ∧ c ≠ 91 ∧ c ≠ 93) →
+    (∃ c ∈ nn, c = 47 ∨ c = 63 ∨ c = 35 ∨ c = 64 ∨ c = 58 ∨ c = 91 ∨ c = 93) →
     splitUrl e.o s = .error .valueError ∧ encodeUrl e s = .error .valueError ∧
     preEncodedUrl e s = .error .valueError := by
   intro A ha hn hne hc
@@ -196,7 +202,8 @@ example : (Rfc.appendixB Gen.schemeChars (cleanUrl ("http://x".toStr ++ [0x2100]
     "x".toStr ++ [0x2100] ++ "y".toStr := by decide +kernel
 
 /-
-GAPS:   (theorems named `C16_headline_…` that are not in this file are in C16HeadlineMore.lean)
+GAPS:   (theorems named `C16_headline_…` that are not in this file are in C16HeadlineMore.lean or, where it says so, in
+         C16HeadlineMore3.lean)
  1. PARTLY CLOSED by C16_idn_encoded_ascii_lower, C16_idn_ctor, C16_idn_build, C16_idn_withHost, C16_idn_encode_idempotent,
     C16_idn_host_decoded, C16_idn_host_reencodes (C16Idn.lean), see C16_headline_idn_lower_ascii, _idn_constructor,
     _idn_validated, _idn_idempotent, _idn_host_decoded, _idn_host_reencodes.  Proved for a NON-ASCII host that is no IP
@@ -213,7 +220,22 @@ GAPS:   (theorems named `C16_headline_…` that are not in this file are in C16H
     property of third-party code — NOT proved, trusted base (probed only: header of C16Idn.lean lists answers that are
     not reg-name text, e.g. "ü%zz" ↦ "xn--%zz-goa", and a host whose answer no decoder accepts).  The URL-level statement
     C16_headline_idn_constructor covers only inputs `scheme://h/path#fragment` with the IDN host alone in the authority
-    (no userinfo, no port); other shapes have the `_encode_host`-level statement only.
+    (no userinfo, no port).
+    SHARPENED by C16_validation_only_rejects, C16_encode_idempotent_every_host, C16_host_text_three_routes,
+    C16_host_text_build_authority_route (C16More2.lean), see C16_headline_validation_only_rejects,
+    C16_headline_idempotent_every_host, C16_headline_host_three_routes, C16_headline_host_build_authority_route
+    (C16HeadlineMore3.lean).  Proved WITHOUT any assumption on the IDNA answers, from the ONE hypothesis that the host text
+    `h` passes `_encode_host(h, validate_host=True)` with result `r` (for a non-ASCII `h` this says that the oracle's
+    answer passed the reg-name screen — a hypothesis about that answer, not an assumption about the package): the
+    non-validating call returns the same `r` (validation only rejects, never changes the answer); re-encoding the stored
+    raw host gives `r` again, validating or not, for EVERY host kind; and with_host on any receiver, build(host=), the
+    constructor on ANY input whose authority has the host part `h` (userinfo, port, brackets, any path / query /
+    fragment) and build(authority=) with that host part all store the SAME raw host `unbracket r` — this lifts the
+    URL-level IDN statement beyond `scheme://h/path#fragment`.  Extra hypothesis: `r ≠ ""` (excludes an IDNA oracle
+    answering "" for a non-ASCII host; automatic for a non-empty ASCII host).  A host that only the NON-validating routes
+    accept (constructor, build(authority=)) still needs `IdnaSaneAt` / the ASCII hypotheses above
+    (C16_headline_lower_ascii_fails_for_hostile_idna, C16_headline_idempotent_fails_for).  The oracle / third-party part
+    of this item is unchanged: STILL OPEN, trusted base.
  2. CLOSED by C16_zone_kept_verbatim, C16_zone_kept_verbatim', C16_zone_kept_verbatim_ipv4, C16_zone_char_accepted,
     C16_notRegName_iff, C16_zone_ipv4_not_literal (C16More.lean), see C16_headline_zone_kept_verbatim,
     _zone_validated_chars, _zone_ipv4, C16_headline_notRegName_iff, C16_headline_ipv4_kept_fails_for_zone_without_digit.
@@ -242,8 +264,20 @@ GAPS:   (theorems named `C16_headline_…` that are not in this file are in C16H
     `Rfc5952.format` (lower-case hex groups without leading zeros; the FIRST LONGEST run of ≥ 2 zero groups replaced by
     "::", which occurs exactly once then and not at all otherwise; the run is maximal), and parse∘print = id
     (C16_headline_ipv6).  RFC 5952 §5 (mixed notation for IPv4-mapped addresses) is NOT applied, as in CPython.
-    STILL OPEN: `ipv6ToStr` is a hand model of `ipaddress.IPv6Address.compressed` (CPython 3.12), validated by the
-    differential harness only; IPv4-mapped tails, scope ids beyond '%zone' as in the model.
+    FURTHER by C16_ipv6_text_every_address, C16_ipv4_text_parses, C16_ipv6_embedded_ipv4_parse,
+    C16_ipv4_mapped_canonical, C16_ipv4_compatible_canonical (C16More2.lean), see C16_headline_ipv6_text_every_address,
+    C16_headline_ipv4_text_parses, C16_headline_ipv6_embedded_ipv4, C16_headline_ipv4_mapped_canonical,
+    C16_headline_ipv4_compatible_canonical (C16HeadlineMore3.lean).  Proved, about the MODEL: for EVERY value of the eight
+    16-bit groups, in one statement, the §4 clauses above plus: the only other character is ':', no '.', '%', '[', ']',
+    '/' in the text, the model's parser reads the text back to the same groups (the printer is injective, the text a
+    fixed point); every dotted quad with octets ≤ 255 is an IPv4 literal for the model's parser; an IPv6 text whose last
+    part is a dotted quad ("::"-forms with groups in canonical lower-case hex, and full forms) denotes the address with
+    the last two groups `a·256+b`, `c·256+d`; `::ffff:a.b.c.d` is stored as `[::ffff:X:Y]` and `::a.b.c.d` as `[::]` /
+    `[::Y]` / `[::X:Y]` for ALL `a.b.c.d` (validation on or off; the dotted quad never survives).
+    STILL OPEN: `ipv6ToStr` / `parseIPv6` / `parseIPv4` are hand models of CPython's `ipaddress` (3.12), validated by the
+    differential harness only — the new theorems say what the MODEL does with embedded IPv4, not that CPython does the
+    same; embedded-IPv4 "::"-forms whose hex groups are NOT written in canonical lower case are covered only through
+    `parseIPv6_lower` / C16_headline_ipv6_groups (no single statement); scope ids beyond '%zone' as in the model.
  5. CLOSED (by stating exactly what holds) by C16_build_authority_host, C16_build_authority_accepts_more (C16More.lean), see
     C16_headline_build_authority_host, C16_headline_validation_fails_for_build_authority.  "build() and with_host()
     reject …" is stated as "success ⇒ `_encode_host(…, True)` succeeded ⇒ result is an IP literal or in the reg-name
@@ -251,16 +285,46 @@ GAPS:   (theorems named `C16_headline_…` that are not in this file are in C16H
     with validation OFF (by design in yarl): the clause is FALSE there (`authority="EX^ample{}.com"` is stored as
     "ex^ample{}.com"); what holds instead — scheme lowered, NFKC screen for a non-ASCII authority, `split_netloc`, then
     `_encode_host(host, False)` with its four cases — is C16_headline_build_authority_host.
-    STILL OPEN: `encoded=True` skips everything (no theorem).
+    `encoded=True`: CLOSED for build by C16_build_encoded_skips_host_processing (C16More2.lean), see
+    C16_headline_build_encoded_skips_host_processing (C16HeadlineMore3.lean): `build(…, encoded=True)` stores the
+    `authority` argument — or `host[:port]` around the `host` argument — verbatim, scheme as given, no cache, and does not
+    consult the IDNA / `nfkc` oracles at all; so the clause is FALSE there too, by contract (hypotheses: `encoded = true`,
+    the call succeeded; the netloc with `user=` / `password=` is `C07_encBuildNetloc`, C07Encoded.lean, not restated).
+    STILL OPEN: the `encoded=True` CONSTRUCTOR stores the host text as `split_url` cut it out, without `_encode_host`; no
+    C16 theorem says so (the NFKC screen does run there: C16_headline_nfkc_rejects covers `preEncodedUrl`).
  6. PARTLY CLOSED by C16_build_authority_nfkc_screen, C16_build_authority_now_rejected, C16_build_ascii_ignores_nfkc
     (C16More.lean), see C16_headline_nfkc_rejects_build_authority, _nfkc_rejects_build_authority_instances,
     C16_headline_build_ascii_ignores_nfkc.  NFKC clause: proved relative to the `nfkc` oracle answer; `cleanUrl`/Appendix-B
     authority is the text that is checked.  The clause now holds for the constructor (both modes) AND, since fix c2c2803,
     for `build(authority=…)`, which calls `_check_netloc` on a non-ASCII authority like the parser (before the fix
     `build(scheme='http', authority='a＠evil.com')` gave a URL with host 'evil.com'; now ValueError).
-    STILL OPEN: `with_host` does not call `_check_netloc` (it validates instead: C16_headline_never_injects shows that no
-    '@' '/' '?' '#' and, outside IP literals, no ':' can come out) — no theorem phrased with NFKC, but the property text
-    says "any authority"; `build(encoded=True)` is not screened (no theorem); everything is relative to the oracle.
+    The screened characters are those of the current `_check_netloc` (GAPS 8): "@:#?[]" are removed before normalising,
+    and an NFKC form containing one of "/?#@:[]" is rejected.
+    FURTHER by C16_with_host_needs_no_nfkc_screen, C16_with_host_nfkc_clause_depends_on_idna,
+    C16_build_encoded_skips_host_processing (C16More2.lean), see C16_headline_with_host_needs_no_nfkc_screen,
+    C16_headline_nfkc_rejects_fails_for_with_host_hypothetical_idna, C16_headline_build_encoded_skips_host_processing
+    (C16HeadlineMore3.lean).  `with_host` does not call `_check_netloc` (it validates instead).  Proved at URL level:
+    whatever the argument and whatever the oracles answer, if `with_host` returns a URL, the raw host it stores consists of
+    characters of the validated `_encode_host` result, has none of '@' '/' '?' '#' ' ' and has ':' '[' ']' only for an
+    IP-literal argument.  That is NOT the clause as written: "is rejected" is FALSE on this route for a hypothetical `idna`
+    package that answers reg-name text for "a／b" (U+FF0F) — `with_host` then stores that answer while the constructor
+    rejects the same host — and holds with the answers of the real code on that input only because the stdlib answer
+    "a/b" fails the reg-name screen (evaluated, both backends).  `build(host=)` is in the same position as `with_host`
+    (validation, no `_check_netloc`; C16_headline_never_injects at `_encode_host` level, C16_headline_host_three_routes
+    (2) for the stored raw host) — no theorem phrased with NFKC.  `build(encoded=True)` is not screened: the authority is
+    stored verbatim (item 5).
+    STILL OPEN: the property text says "any authority" and the routes with_host / build(host=) / build(encoded=True) do
+    not satisfy the clause as written; everything is relative to the `nfkc` / IDNA oracle answers.
  7. Idempotence at URL level ("URL(str(u)).raw_host == u.raw_host") is C03; not restated here.
+ 8. (new) The NFKC screen and the brackets.  Since library fix 27f84d3 `_check_netloc` (model: `checkNetloc`,
+    YarlModel/Parse.lean) removes '[' and ']' as well as '@' ':' '#' '?' from the netloc before normalising and rejects
+    an NFKC form that contains '[' or ']' as well as '/' '?' '#' '@' ':' (U+FF3B ［ / U+FF3D ］ normalise to the
+    brackets).  C16_nfkc_rejects (C16.lean), C16_headline_nfkc_rejects and C16_headline_nfkc_rejects_build_authority are
+    stated with the seven characters; the bracket case by itself is C16_headline_nfkc_rejects_brackets, and the inputs
+    of the fix are C16_headline_nfkc_rejects_fullwidth_brackets (C16HeadlineMore3.lean; hypotheses: the oracle answers
+    "a[b" / "a]b" for "a［b" / "a］b", as `unicodedata` does — oracle, trusted base).  The property text (quoted verbatim
+    in the headers) still lists five characters: the library rejects MORE than the text says, nothing less.
+    Only the REJECTING direction is stated as a theorem; when the screen accepts is read off the definition of
+    `checkNetloc` (C16_headline_build_authority_host records `checkNetloc … = .ok ()` for an accepted non-ASCII authority).
 -/
 end Yarl
